@@ -247,6 +247,7 @@ func (in *Interp) resetPath(prefix []Decision, model map[string]uint64) {
 	in.reached = map[string]bool{}
 	in.observes = nil
 	in.clockLast = nil
+	in.uuidSeq = 0
 	in.usedIntrinsics = map[string]bool{}
 	in.usedStubs = map[string]bool{}
 	in.encoded = map[string]bool{}
